@@ -29,8 +29,18 @@ pub fn violation_keys(o: &Outcome, job: &DJob) -> Vec<(Value, String)> {
                 ));
             }
             for k in strs(&v["lost_kinds"]) {
+                let remaining = match k.as_str() {
+                    "spaces.loads" => v["n_space_conditions_blocks"].as_u64(),
+                    "spaces.thermostat" => v["n_system_conditions_blocks"].as_u64(),
+                    _ => None,
+                };
+                let when = match remaining {
+                    Some(0) => "no definition block of that kind left in the project",
+                    Some(_) => "other definition blocks of that kind remain",
+                    None => "-",
+                };
                 out.push((
-                    json!({"class":"link_lost","link":k}),
+                    json!({"class":"link_lost","link":k,"when":when}),
                     format!(
                         "fault {} -> Ok(model) in which a link present in the intact conversion is now missing: {}",
                         fault,
